@@ -150,4 +150,46 @@ theorem stripFixed_example :
       = [.ident "Debug", .comma, .ident "Clone"] := by
   simp [stripFixed, stripFixedGo, isLogosEntry]
 
+/-! ### spacing (defect D11) -/
+
+theorem aloneGo_eq (ts : List STok) (cur : List Tok) (h : ∀ t ∈ ts, t.tok = .comma → t.joint = false) :
+    stripAloneGo ts cur = stripFixedGo (ts.map (·.tok)) cur := by
+  induction ts generalizing cur with
+  | nil => simp [stripAloneGo, stripFixedGo]
+  | cons t rest ih =>
+    have hr : ∀ t ∈ rest, t.tok = .comma → t.joint = false := fun x hx => h x (List.mem_cons_of_mem _ hx)
+    obtain ⟨tk, j⟩ := t
+    by_cases hc : tk = .comma
+    · subst hc
+      have hj : j = false := h ⟨.comma, j⟩ (by simp) rfl
+      subst hj
+      simp [stripAloneGo, stripFixedGo, ih _ hr]
+    · have h1 : stripAloneGo (⟨tk, j⟩ :: rest) cur = stripAloneGo rest (cur ++ [tk]) := by
+        cases tk <;> simp_all [stripAloneGo]
+      rw [h1, ih _ hr]
+      simp [go_cons_ne tk _ cur hc]
+
+/-- while every comma is followed by a blank (spacing `Alone`) the old test and the repaired one agree: the suite and the
+documentation only ever write `, ` -/
+theorem stripAlone_eq_of_alone (ts : List STok) (h : ∀ t ∈ ts, t.tok = .comma → t.joint = false) :
+    stripAlone ts = stripSpaced ts := by
+  simpa [stripAlone, stripSpaced, stripFixed] using aloneGo_eq ts [] h
+
+/-- **`is_punct` as found violates C17**: `#[derive(Debug,::logos::Logos)]` becomes `#[derive()]` -/
+theorem stripAlone_counterexample :
+    stripAlone [⟨.ident "Debug", false⟩, ⟨.comma, true⟩, ⟨.punct ':', true⟩, ⟨.punct ':', false⟩, ⟨.ident "logos", false⟩,
+                ⟨.punct ':', true⟩, ⟨.punct ':', false⟩, ⟨.ident "Logos", false⟩] = [] := by
+  simp [stripAlone, stripAloneGo, isLogosEntry]
+
+/-- the repaired rewrite keeps `Debug` (and its separator) on that input -/
+theorem stripSpaced_example :
+    stripSpaced [⟨.ident "Debug", false⟩, ⟨.comma, true⟩, ⟨.punct ':', true⟩, ⟨.punct ':', false⟩, ⟨.ident "logos", false⟩,
+                 ⟨.punct ':', true⟩, ⟨.punct ':', false⟩, ⟨.ident "Logos", false⟩] = [.ident "Debug", .comma] := by
+  simp [stripSpaced, stripFixed, stripFixedGo, isLogosEntry]
+
+/-- whatever the spacing: the entries kept are exactly the entries that do not name `Logos` -/
+theorem stripSpaced_entries (ts : List STok) :
+    nonEmpty (entries (stripSpaced ts)) = nonEmpty ((entries (ts.map (·.tok))).filter fun e => !isLogosEntry e) :=
+  stripFixed_entries _
+
 end Logos.Strip
